@@ -1355,26 +1355,32 @@ func rollbackInstalls(r *engine.Run, rule string) {
 	}
 	if f := wfn(r, rule, "collectDeleteAndCreated"); f != nil {
 		records := false
-		var scan func(g *ssa.Function)
-		scan = func(g *ssa.Function) {
+		var scan func(g *ssa.Function, inHandler bool, depth int)
+		scan = func(g *ssa.Function, inHandler bool, depth int) {
 			engine.Instrs(g, func(in ssa.Instruction) {
+				if c, ok := in.(*ssa.Call); ok && inHandler && depth < 2 {
+					// the handler hands each hash to a trie method that does the bookkeeping
+					if h := c.Call.StaticCallee(); h != nil && h.Pkg == f.Pkg && len(h.Blocks) > 0 && h != g {
+						scan(h, true, depth+1)
+					}
+				}
 				st, ok := in.(*ssa.Store)
 				if !ok {
 					return
 				}
 				if fld := engine.FieldOf(st.Addr); fld != nil && fld.Name() == "created" {
 					if c, ok := st.Val.(*ssa.Call); ok {
-						if b, ok := c.Call.Value.(*ssa.Builtin); ok && b.Name() == "append" && g.Parent() != nil {
+						if b, ok := c.Call.Value.(*ssa.Builtin); ok && b.Name() == "append" && inHandler {
 							records = true
 						}
 					}
 				}
 			})
 			for _, a := range g.AnonFuncs {
-				scan(a)
+				scan(a, true, depth)
 			}
 		}
-		scan(f)
+		scan(f, false, 0)
 		r.Check(records, rule, fn(f)+"|records created hashes", r.P.Pos(f.Pos()), "the created-hash handler appends each received hash to the created list",
 			"the hashes of the nodes a commit writes are no longer recorded: a rollback cannot remove what the rolled-back commit created")
 	}
